@@ -82,6 +82,10 @@ class EvalContext(NamedTuple):
 
     stats_time: Dict[ProcessingStage, float]
 
+    # The paths that the evaluation loads from the store, with the signature they had when the evaluation
+    # started (the signatures of the functions that load them are built on these values).
+    loaded_paths: Optional[Dict[DDSPath, PyHash]] = None
+
 
 # The name of a codec protocol.
 ProtocolRef = NewType("ProtocolRef", str)
